@@ -85,6 +85,9 @@ type C06Rec struct {
 	// "keyword argument".
 	Extra map[string][]string `json:"extra,omitempty"`
 	Exts  []string            `json:"exts,omitempty"`
+	// IdVals: keys ("owning module:identity", sorted) of every identity derived - directly or through
+	// other identities - from the base (Entry.Type.IdentityBase.Values); only the identity-scope family
+	IdVals []string `json:"idv,omitempty"`
 	// TSig: "kind/range/length" of the resolved type (only the families of c06scope.go, in which
 	// every typedef has a restriction of its own, so that the signature names the typedef)
 	TSig string `json:"tsig,omitempty"`
@@ -158,6 +161,8 @@ type c06 struct {
 	pin map[*Module]map[*Module]string
 	// sig: when set, the type signature recorded as C06Rec.TSig of every leaf / leaf-list (c06scope.go)
 	sig func(leaf *Node) string
+	// idvals: when set, the identities derived from an identity key (C06Rec.IdVals; c06ident.go)
+	idvals func(key string) []string
 }
 
 // c06TreeKey is the key of Modules.Modules under which the tree of m is found: the bare name,
@@ -371,12 +376,7 @@ func (g *c06) typeKind(leaf *Node) (kind, idbase string) {
 			b := declared2(t, "base")
 			if b != nil {
 				// the identity is looked up from where the type statement is written
-				m := g.root(t)
-				name := b.Arg
-				if i := strings.IndexByte(name, ':'); i >= 0 {
-					name = name[i+1:]
-				}
-				return "identityref", c06Owner(m).Name + ":" + name
+				return "identityref", c06IdentityKey(g.root(t), b.Arg)
 			}
 			return "identityref", ""
 		}
@@ -399,6 +399,25 @@ func (g *c06) typeKind(leaf *Node) (kind, idbase string) {
 		}
 	}
 	return "?", ""
+}
+
+// c06IdentityKey is the identity ("owning module:name") a base argument written in file m denotes.
+func c06IdentityKey(m *Module, name string) string {
+	if i := strings.IndexByte(name, ':'); i >= 0 {
+		pfx := name[:i]
+		name = name[i+1:]
+		if pfx != m.Prefix {
+			// a foreign prefix denotes the module that the file in which the base statement
+			// is written imports under exactly that prefix
+			for _, o := range m.Imports {
+				if m.ImportPrefix[o] == pfx {
+					return c06Owner(o).Name + ":" + name
+				}
+			}
+			return "?"
+		}
+	}
+	return c06Owner(m).Name + ":" + name
 }
 
 func declared2(n *Node, kw string) *Node {
@@ -1380,6 +1399,9 @@ func (g *c06) rec(mod *Module, steps []c06Step, n *Node, pend []*Node) C06Rec {
 	r.Extra, r.Exts = extrasOf(n, pend)
 	if g.sig != nil && (n.Kw == "leaf" || n.Kw == "leaf-list") {
 		r.TSig = g.sig(n)
+	}
+	if g.idvals != nil && r.IdBase != "" {
+		r.IdVals = g.idvals(r.IdBase)
 	}
 	return r
 }
